@@ -220,6 +220,9 @@ def synth(sc):
         if sc.get("nrep", 0):                               # noise instead of the signal (floating input)
             raw[sc["noisy"] - 1] = 0
         raw[sc["noisy"] - 1] += rng.standard_normal(ns) * sc["nsig"]
+    if sc.get("dc"):
+        # per-channel DC offsets as a raw AP file has them (uniform within +- dc volts): they carry no information
+        raw = raw + np.random.default_rng(sc["seed"] + 77).uniform(-sc["dc"], sc["dc"], (n, 1))
     return raw
 
 
@@ -315,6 +318,16 @@ def scenario(rnd, n, dead, noisy, top, ns=3000):
           "nsig": rnd.choice([150e-6, 300e-6]), "silent": rnd.choice(["zeros", "zeros", "hum"])}
     if top and noisy and noisy > n - top - 6:
         sc["nsig"] = 150e-6     # the strongest noise inside / next to the block sits at the decision threshold of the block edge
+    sc["dc"] = rnd.choice([0, 0, 0.3e-3, 0.9e-3])
+    return sc
+
+
+def scenario_dcnoise(rnd, n, top):
+    """a weak coherent background under stronger independent noise, on channels with large DC offsets; one silent channel
+    in the interior"""
+    sc = scenario(rnd, n, rnd.randrange(13, n - top - 12), 0, top)
+    sc.update({"amp": rnd.choice([3e-6, 4e-6, 10e-6]), "sig": rnd.choice([6e-6, 7e-6]), "dc": rnd.choice([0.6e-3, 0.9e-3]),
+               "nrep": 0})
     return sc
 
 
@@ -349,6 +362,8 @@ def detect_scenarios(ctx):
         if top:
             for k in ((2, 5) if ctx.quick else (1, 2, 3, 4, 5)):
                 out.append(scenario(rnd, n, last - k, 0, top))
+    for _ in range(8 if ctx.quick else 60):
+        out.append(scenario_dcnoise(rnd, n, rnd.choice([0, 0, 3, 10, 20, 40])))
     # both faults, anywhere (thorough: every position of the probe once as silent and once as noisy)
     if ctx.quick:
         for _ in range(24):
